@@ -59,6 +59,8 @@ def run(C, R):
         E = C.engine(cfg)
         CG = C.cg(cfg)
         R.configs.append(cfg)
+        from common import wrapper_discipline
+        R.floor('C03.W wrapper-paths[%s]' % cfg, wrapper_discipline(C, R, cfg, ['sync::mutex::MutexState'], 'C03.W'), 2)
         n_r1 = n_r2 = 0
         for m in entry_methods(F, CG, STATE):
             paths = E.run(m['path'])
